@@ -83,20 +83,51 @@ pub fn cmp_table(cid: usize, a: &V, b: &V) -> O {
     match cid { 0 => a.cmp(b), 1 => (a % 4).cmp(&(b % 4)), 2 => b.cmp(a), _ => (a / 2).cmp(&(b / 2)) }
 }
 
+type BoxS<I> = Pin<Box<dyn Stream<Item = I>>>;
+/// the outermost stage, kept with its concrete type while it is a dynamic Head / Tail / Skip, so that the adapter
+/// itself can later be used as the observer of one more stage (`VectorObserver::into_parts`)
+enum Top<I: eyeball_im_util::vector::VectorDiffContainer<Element = V>> { H(Head<BoxS<I>, Lim>), T(Tail<BoxS<I>, Lim>), K(Skip<BoxS<I>, Lim>) }
+impl<I: eyeball_im_util::vector::VectorDiffContainer<Element = V>> Top<I> {
+    fn poll(&mut self, cx: &mut Context<'_>) -> Poll<Option<I>> {
+        match self { Top::H(h) => Pin::new(h).poll_next(cx), Top::T(h) => Pin::new(h).poll_next(cx), Top::K(h) => Pin::new(h).poll_next(cx) }
+    }
+    fn into_parts(self) -> (Vector<V>, BoxS<I>) where I: 'static {
+        match self {
+            Top::H(h) => { let (v, s) = VectorObserver::into_parts(h); (v, Box::pin(s)) }
+            Top::T(h) => { let (v, s) = VectorObserver::into_parts(h); (v, Box::pin(s)) }
+            Top::K(h) => { let (v, s) = VectorObserver::into_parts(h); (v, Box::pin(s)) }
+        }
+    }
+}
 type SS = Pin<Box<dyn Stream<Item = VectorDiff<V>>>>;
 type BS = Pin<Box<dyn Stream<Item = Vec<VectorDiff<V>>>>>;
 
 macro_rules! builder {
     ($name:ident, $item:ty, $boxty:ty) => {
         /// builds the chain; returns the stream, the initial values each stage handed on, the tap logs (index 0 = source)
-        fn $name(init: Vector<V>, src: $boxty, specs: &[Spec], lims: &[Lim]) -> ($boxty, Vec<Vector<V>>, Vec<Rc<RefCell<Vec<$item>>>>) {
+        fn $name(init: Vector<V>, src: $boxty, specs: &[Spec], lims: &[Lim]) -> (Option<$boxty>, Option<Top<$item>>, Vec<Vector<V>>, Vec<Rc<RefCell<Vec<$item>>>>) {
             let mut taps = vec![];
             let mut inits = vec![init.clone()];
             let log0 = Rc::new(RefCell::new(vec![]));
             taps.push(log0.clone());
             let mut stream: $boxty = Box::pin(Tap { inner: src, log: log0 });
             let mut vals = init;
-            for sp in specs {
+            for (si, sp) in specs.iter().enumerate() {
+                // the last stage stays concrete if it is a dynamic Head / Tail / Skip
+                if si + 1 == specs.len() && sp.lim().is_some() {
+                    let (v, top): (Vector<V>, Top<$item>) = match sp.clone() {
+                        Spec::DHead(k) => (Vector::new(), Top::H(Head::dynamic(vals, stream, lims[k].clone()))),
+                        Spec::DHeadI(l, k) => { let (v, s) = Head::dynamic_with_initial_limit(vals, stream, l, lims[k].clone()); (v, Top::H(s)) }
+                        Spec::DTail(k) => (Vector::new(), Top::T(Tail::dynamic(vals, stream, lims[k].clone()))),
+                        Spec::DTailI(l, k) => { let (v, s) = Tail::dynamic_with_initial_limit(vals, stream, l, lims[k].clone()); (v, Top::T(s)) }
+                        Spec::DSkip(k) => (Vector::new(), Top::K(Skip::dynamic(vals, stream, lims[k].clone()))),
+                        Spec::DSkipI(c, k) => { let (v, s) = Skip::dynamic_with_initial_count(vals, stream, c, lims[k].clone()); (v, Top::K(s)) }
+                        _ => unreachable!(),
+                    };
+                    taps.push(Rc::new(RefCell::new(vec![])));
+                    inits.push(v);
+                    return (None, Some(top), inits, taps);
+                }
                 let (v, s): (Vector<V>, $boxty) = match sp.clone() {
                     Spec::Head(l) => { let (v, s) = Head::new(vals, stream, l); (v, Box::pin(s)) }
                     Spec::DHead(k) => { let h = Head::dynamic(vals, stream, lims[k].clone()); let (v, s) = VectorObserver::into_parts(h); (v, Box::pin(s)) }
@@ -119,14 +150,17 @@ macro_rules! builder {
                 inits.push(v.clone());
                 vals = v;
             }
-            (stream, inits, taps)
+            (Some(stream), None, inits, taps)
         }
     };
 }
 builder!(build_single, VectorDiff<V>, SS);
 builder!(build_batched, Vec<VectorDiff<V>>, BS);
 
-enum PStream { S(SS, Vec<Rc<RefCell<Vec<VectorDiff<V>>>>>), B(BS, Vec<Rc<RefCell<Vec<Vec<VectorDiff<V>>>>>>) }
+enum PStream {
+    S(Option<SS>, Option<Top<VectorDiff<V>>>, Vec<Rc<RefCell<Vec<VectorDiff<V>>>>>),
+    B(Option<BS>, Option<Top<Vec<VectorDiff<V>>>>, Vec<Rc<RefCell<Vec<Vec<VectorDiff<V>>>>>>),
+}
 
 #[derive(PartialEq, Debug, Clone)]
 pub enum Got { Item(Vec<VectorDiff<V>>, bool /*batch*/), Pending, End, Panic }
@@ -210,14 +244,14 @@ impl PW {
         let inits: Vec<Vector<V>>;
         if batched {
             let (v, s) = VectorObserver::into_parts(sub.batched());
-            let (st, i, taps) = build_batched(v, Box::pin(s), specs, &self.lims);
+            let (st, top, i, taps) = build_batched(v, Box::pin(s), specs, &self.lims);
             inits = i;
-            self.stream = Some(PStream::B(st, taps));
+            self.stream = Some(PStream::B(st, top, taps));
         } else {
             let (v, s) = sub.into_values_and_stream();
-            let (st, i, taps) = build_single(v, Box::pin(s), specs, &self.lims);
+            let (st, top, i, taps) = build_single(v, Box::pin(s), specs, &self.lims);
             inits = i;
-            self.stream = Some(PStream::S(st, taps));
+            self.stream = Some(PStream::S(st, top, taps));
         }
         self.params = specs.iter().map(|s| match s {
             Spec::Head(l) | Spec::DHeadI(l, _) | Spec::Tail(l) | Spec::DTailI(l, _) | Spec::Skip(l) | Spec::DSkipI(l, _) => Some(*l),
@@ -258,6 +292,74 @@ impl PW {
         for s in specs { sink.stat(&format!("stage.{}", s.kind())); }
         sink.stat(if batched { "pipe.batched" } else { "pipe.plain" });
         sink.line(&format!("pipe {} {}", if batched { "batched" } else { "plain" }, sp.join(" ")), &format!("init={}", fmt_list(&shown)));
+    }
+
+    /// can the adapter itself be used as the observer of one more stage?
+    pub fn stackable(&self) -> bool {
+        match self.stream.as_ref() { Some(PStream::S(_, t, _)) => t.is_some(), Some(PStream::B(_, t, _)) => t.is_some(), None => false }
+    }
+    pub fn n_lims(&self) -> usize { self.lims.len() }
+    pub fn specs(&self) -> &[Spec] { &self.specs }
+
+    /// `VectorObserver::into_parts` of the current outermost dynamic Head/Tail/Skip, then one more stage on top of it
+    pub fn stack(&mut self, sink: &mut Sink, sp: &Spec) {
+        let n = self.specs.len();
+        if let Some(k) = sp.lim() { while self.lims.len() <= k { self.lims.push(Lim::new()); } }
+        let handed: Vec<V>;
+        let new_init: Vec<V>;
+        let taken = self.stream.take().unwrap();
+        // a panic inside `into_parts` is a violation in itself (C12): report it and end the case's pipeline
+        let parts = catch(move || match taken {
+            PStream::S(_, top, taps) => { let (v, s) = top.unwrap().into_parts(); (Some((v, s, taps)), None) }
+            PStream::B(_, top, taps) => { let (v, s) = top.unwrap().into_parts(); (None, Some((v, s, taps))) }
+        });
+        let Ok(parts) = parts else {
+            sink.oracle_fail("C12", &format!("stage {} ({}) used as observer: into_parts panicked", n - 1, self.specs[n - 1].text()));
+            sink.line(&format!("stack {}", sp.text()), "panic");
+            self.ended = true;
+            return;
+        };
+        match parts {
+            (Some((v, s, mut taps)), _) => {
+                handed = v.iter().copied().collect();
+                let (st, ntop, inits, ntaps) = build_single(v, s, std::slice::from_ref(sp), &self.lims);
+                taps[n] = ntaps[0].clone();
+                taps.push(ntaps[1].clone());
+                new_init = inits[1].iter().copied().collect();
+                self.stream = Some(PStream::S(st, ntop, taps));
+            }
+            (_, Some((v, s, mut taps))) => {
+                handed = v.iter().copied().collect();
+                let (st, ntop, inits, ntaps) = build_batched(v, s, std::slice::from_ref(sp), &self.lims);
+                taps[n] = ntaps[0].clone();
+                taps.push(ntaps[1].clone());
+                new_init = inits[1].iter().copied().collect();
+                self.stream = Some(PStream::B(st, ntop, taps));
+            }
+            _ => unreachable!(),
+        }
+        self.consumed[n] = 0;
+        self.consumed.push(0);
+        self.parked = false; // the new outermost stream has not been polled yet: nothing is registered
+        // C12: what the adapter hands to the next one is its current view
+        if handed != self.views[n] {
+            sink.oracle_fail("C12", &format!("stage {} ({}) used as observer hands on {handed:?}; its current view is {:?}", n - 1, self.specs[n - 1].text(), self.views[n]));
+        }
+        if let Spec::Sort(c) = sp { let h = handed.clone(); self.hint(sink, *c, &h); }
+        self.params.push(match sp {
+            Spec::Head(l) | Spec::DHeadI(l, _) | Spec::Tail(l) | Spec::DTailI(l, _) | Spec::Skip(l) | Spec::DSkipI(l, _) => Some(*l),
+            Spec::DHead(_) | Spec::DTail(_) => Some(0),
+            _ => None,
+        });
+        let expect = stage_spec(sp, &handed, *self.params.last().unwrap());
+        let ok = match (&expect, sp) { (Some(e), _) => *e == new_init || sp.pure_dynamic(), (None, Spec::Sort(c)) => sorted_perm_of(*c, &new_init, &handed), _ => true };
+        if !ok { sink.oracle_fail(&format!("{},C12", Self::prop_of(sp)), &format!("stacked stage ({}): initial values {new_init:?}, its view of {handed:?} is {expect:?}", sp.text())); }
+        let shown = if sp.pure_dynamic() { vec![] } else { new_init.clone() };
+        self.views.push(shown.clone());
+        self.specs.push(sp.clone());
+        sink.stat("op.stack");
+        sink.stat(&format!("stage.{}", sp.kind()));
+        sink.line(&format!("stack {}", sp.text()), &format!("handed={} init={}", fmt_list(&handed), fmt_list(&shown)));
     }
 
     fn woke(&mut self) -> bool {
@@ -356,10 +458,16 @@ impl PW {
         let mut cx = Context::from_waker(&self.waker);
         let st = self.stream.as_mut().unwrap();
         catch(|| match st {
-            PStream::S(s, _) => match s.as_mut().poll_next(&mut cx) {
-                Poll::Ready(Some(d)) => Got::Item(vec![d], false), Poll::Ready(None) => Got::End, Poll::Pending => Got::Pending },
-            PStream::B(s, _) => match s.as_mut().poll_next(&mut cx) {
-                Poll::Ready(Some(d)) => Got::Item(d, true), Poll::Ready(None) => Got::End, Poll::Pending => Got::Pending },
+            PStream::S(s, top, taps) => {
+                let r = match top { Some(t) => { let r = t.poll(&mut cx); if let Poll::Ready(Some(d)) = &r { taps.last().unwrap().borrow_mut().push(d.clone()); } r }
+                                    None => s.as_mut().unwrap().as_mut().poll_next(&mut cx) };
+                match r { Poll::Ready(Some(d)) => Got::Item(vec![d], false), Poll::Ready(None) => Got::End, Poll::Pending => Got::Pending }
+            }
+            PStream::B(s, top, taps) => {
+                let r = match top { Some(t) => { let r = t.poll(&mut cx); if let Poll::Ready(Some(d)) = &r { taps.last().unwrap().borrow_mut().push(d.clone()); } r }
+                                    None => s.as_mut().unwrap().as_mut().poll_next(&mut cx) };
+                match r { Poll::Ready(Some(d)) => Got::Item(d, true), Poll::Ready(None) => Got::End, Poll::Pending => Got::Pending }
+            }
         }).unwrap_or(Got::Panic)
     }
 
@@ -371,8 +479,8 @@ impl PW {
     fn absorb(&mut self, sink: &mut Sink) {
         let n = self.specs.len();
         let new_items: Vec<Vec<Vec<VectorDiff<V>>>> = match self.stream.as_ref().unwrap() {
-            PStream::S(_, taps) => (0..=n).map(|k| taps[k].borrow()[self.consumed[k]..].iter().map(|d| vec![d.clone()]).collect()).collect(),
-            PStream::B(_, taps) => (0..=n).map(|k| taps[k].borrow()[self.consumed[k]..].to_vec()).collect(),
+            PStream::S(_, _, taps) => (0..=n).map(|k| taps[k].borrow()[self.consumed[k]..].iter().map(|d| vec![d.clone()]).collect()).collect(),
+            PStream::B(_, _, taps) => (0..=n).map(|k| taps[k].borrow()[self.consumed[k]..].to_vec()).collect(),
         };
         let multi = n > 1;
         for k in 0..=n {
@@ -448,6 +556,7 @@ impl PW {
     }
 
     pub fn poll(&mut self, sink: &mut Sink) -> Got {
+        if self.stream.is_none() { return Got::End; }
         let lost_possible = self.parked && !self.flag.0.load(Ordering::SeqCst);
         let got = self.poll_raw();
         self.absorb(sink);
@@ -508,12 +617,14 @@ impl PW {
         }
     }
     pub fn ppoll(&mut self, sink: &mut Sink) -> Got {
+        if self.stream.is_none() { return Got::End; }
         let g = self.poll(sink);
         sink.stat("op.ppoll");
         sink.line("ppoll", &Self::got_text(&g));
         g
     }
     pub fn pdrain(&mut self, sink: &mut Sink) {
+        if self.stream.is_none() { return; }
         let mut items = vec![];
         for _ in 0..100000 {
             let g = self.poll(sink);
@@ -691,6 +802,36 @@ pub fn run(args: &Args, sink: &mut Sink) {
         }
     }
     sink.stat_n("exhaustive.D", nd);
+    // ---- S. the adapter itself as observer (into_parts) after its limit/count has been set -------------------
+    let mut ns = 0u64;
+    for len in [0usize, 3, 5] {
+        let init: Vec<V> = (1..=len as V).collect();
+        for par in [0usize, 2, 4, 7] {
+            for kind in 0..6 {
+                let sp = match kind { 0 => Spec::DHead(0), 1 => Spec::DHeadI(par, 0), 2 => Spec::DTail(0), 3 => Spec::DTailI(par, 0), 4 => Spec::DSkip(0), _ => Spec::DSkipI(par, 0) };
+                for upper in [Spec::Filter(255), Spec::Skip(1), Spec::Head(2), Spec::DTailI(2, 1)] {
+                    for (batched, polled) in [(false, false), (false, true), (true, true)] {
+                        ns += 1;
+                        let up = upper.clone();
+                        run_seq(sink, &format!("S{ns}"), 16, &init, batched, &[sp.clone()], &move |w, s| {
+                            if polled {
+                                w.pdrain(s);
+                                if kind % 2 == 0 { w.limit(s, 0, par); w.pdrain(s); }
+                                w.direct(s, &Op::PushB(8)); w.pdrain(s);
+                            }
+                            w.stack(s, &up);
+                            w.pdrain(s);
+                            w.direct(s, &Op::PushF(9)); w.pdrain(s);
+                            // (known finding D2: a Tail limit only grows here)
+                            w.limit(s, 0, if kind == 2 || kind == 3 { par + 1 } else { 3 }); w.pdrain(s);
+                            w.direct(s, &Op::PopB); w.pdrain(s);
+                        });
+                    }
+                }
+            }
+        }
+    }
+    sink.stat_n("exhaustive.S", ns);
     // ---- KF. confirmation set of the known findings (see /verif/known_findings.json) -----------------------------
     // D2: Tail::update_limit shrinking from a limit larger than the vector
     let mut nk = 0;
@@ -718,6 +859,7 @@ pub fn run(args: &Args, sink: &mut Sink) {
         let mut specs = vec![];
         let mut nlim = 0;
         let mut has_sort = false;
+        #[allow(unused_assignments)]
         for _ in 0..nst {
             let par = r.below(5);
             let sp = loop {
@@ -799,7 +941,24 @@ pub fn run(args: &Args, sink: &mut Sink) {
                 }
                 73..=75 if nlim > 0 => { let kx = r.below(nlim); closed[kx] = true; w.lim_close(sink, kx); if wakecheck { w.ppoll(sink); } }
                 76..=77 => { w.drop_vec(sink); if wakecheck { w.ppoll(sink); } }
-                78..=89 => { w.ppoll(sink); }
+                78..=86 => { w.ppoll(sink); }
+                87..=89 if w.stackable() && w.specs().len() < 3 => {
+                    // stack one more stage on the adapter itself, at a quiescent point
+                    w.pdrain(sink);
+                    if !w.alive() || !w.stackable() { continue; }
+                    let nl = w.n_lims();
+                    let par = r.below(5);
+                    let sp = loop {
+                        let c = match r.below(8) { 0 => Spec::Head(par), 1 => Spec::Tail(par), 2 => Spec::Skip(par), 3 => Spec::DHeadI(par, nl), 4 => Spec::DSkip(nl),
+                                                   5 => Spec::Filter(r.below(256) as u32), 6 => Spec::FMap(r.below(256) as u32, r.below(3)), _ => Spec::Sort(r.below(4)) };
+                        if c.is_sort() && w.specs().iter().any(|s| matches!(s, Spec::DHead(_) | Spec::DHeadI(..))) { continue; }
+                        break c;
+                    };
+                    if sp.is_sort() { has_sort = true; }
+                    if sp.lim().is_some() { nlim += 1; last_pushed.push(None); closed.push(false); }
+                    specs.push(sp.clone());
+                    w.stack(sink, &sp);
+                }
                 _ => w.pdrain(sink),
             }
         }
